@@ -745,7 +745,7 @@ def _eval_relation(ex, st, src, cenv, senv, spec_ms):
 
 def verify_contract(contract, registry, combo_filter=None, timeout_ms=10000, rounds=3, seg_filter=None, shard=None):
     """Generate and discharge every obligation of one function. Returns a result dict."""
-    smt.SLOW[0] = 4.5 * timeout_ms / 1000.0          # 45 s quick, 270 s thorough, per task
+    smt.SLOW[0] = 12 if timeout_ms <= 10000 else 60     # inconclusive queries a task may spend (quick / thorough)
     smt.HARD_HITS = 0
     if isinstance(contract, Lemma):
         return verify_lemma(contract, registry, combo_filter, timeout_ms, rounds)
